@@ -78,6 +78,27 @@ def Locals.val {α} : Locals α → Name → Option α
     | some w => some w
     | none => if k = n then v else none
 
+/-- one scope of the generated code: the Python locals `l_N_name` it declares, in declaration order; `none` = the
+    local currently holds `missing` -/
+abbrev Frame (α : Type) := Locals α
+
+/-- innermost declaration of a name, frames given innermost first (`Symbols.find_ref`, idtracking.py:73-80, plus the
+    current value of that Python local); `some none` = declared, currently `missing` -/
+def findDecl {α} : List (Frame α) → Name → Option (Option α)
+  | [], _ => none
+  | f :: r, n => match f.find? (·.1 = n) with
+    | some (_, v) => some v
+    | none => findDecl r n
+
+/-- keep the first entry of every name -/
+def dedupFirst {α} : Locals α → Locals α
+  | [] => []
+  | p :: r => p :: (dedupFirst r).filter fun q => q.1 ≠ p.1
+
+/-- `dump_local_context(frame)` (compiler.py:713-718): `Symbols.dump_stores` (idtracking.py:145-156) walks from the
+    innermost symbol table outwards and keeps the first reference found for every stored name -/
+def dumpLocals {α} (frames : List (Frame α)) : Locals α := dedupFirst frames.flatten
+
 /-- `runtime.new_context(environment, name, blocks, vars, shared, globals, locals)` (runtime.py:93-119) -/
 def newContext {α} (globals : Env α) (vars : Option (Env α)) (shared : Bool) (locals : Locals α) : Ctx α :=
   let vars := vars.getD []
